@@ -312,6 +312,8 @@ pub fn rand_dest(rng: &mut Rng, used: &mut Vec<String>) -> String {
 
 pub fn rand_file(rng: &mut Rng, used: &mut Vec<String>, max_len: usize) -> FileCfg {
     let len = match rng.below(8) {
+        // (sizes around the buffer sizes I/O code likes: 8 KiB, 64 KiB, 128 KiB)
+        0 if max_len >= 3000 && rng.chance(1, 6) => *rng.pick(&[8191usize, 8192, 8193, 65535, 65536, 65537, 131071, 131072, 131073]),
         0 => 0,
         1 => 1 + rng.below(8) as usize,
         2 => 4095 + rng.below(3) as usize,
@@ -422,6 +424,23 @@ pub fn rand_cfg(rng: &mut Rng, max_files: u64, max_len: usize) -> Cfg {
                 used.push(twin.clone());
                 let mut f = rand_file(rng, &mut used, max_len);
                 f.dest = if rng.chance(1, 2) { format!(".{twin}") } else { twin };
+                cfg.files.push(f);
+            }
+        }
+    }
+    // names that differ only in the case of a letter
+    if !cfg.files.is_empty() && rng.chance(1, 4) {
+        let k = rng.below(cfg.files.len() as u64) as usize;
+        let path = cfg.files[k].dest.trim_start_matches('.').to_string();
+        if let Some(pos) = path.rfind(|c: char| c.is_ascii_lowercase()) {
+            let mut twin = path.clone();
+            let up = twin[pos..pos + 1].to_ascii_uppercase();
+            twin.replace_range(pos..pos + 1, &up);
+            if !used.iter().any(|u| u == &twin || u.starts_with(&format!("{twin}/")) || twin.starts_with(&format!("{u}/")))
+                && cfg.files[k].mode.map_or(true, |m| m & 0o170000 != 0o040000) {
+                used.push(twin.clone());
+                let mut f = rand_file(rng, &mut used, max_len);
+                f.dest = twin;
                 cfg.files.push(f);
             }
         }
